@@ -22,6 +22,33 @@ impl DeadCodeEliminator {
         }
     }
 
+    /// The struct declarations inside `stmt`, at any depth. A struct declaration is not code:
+    /// type inference registers it program-wide and other declarations may name it, so it has
+    /// to survive the removal of the (dead) statements around it.
+    fn struct_decls_in(stmt: &TypedStmt, out: &mut Vec<TypedStmt>) {
+        match &stmt.kind {
+            TypedStmtKind::StructDecl { .. } => out.push(stmt.clone()),
+            TypedStmtKind::Block(stmts) => stmts.iter().for_each(|s| Self::struct_decls_in(s, out)),
+            TypedStmtKind::If {
+                then_branch,
+                else_branch,
+                ..
+            } => {
+                Self::struct_decls_in(then_branch, out);
+                if let Some(e) = else_branch {
+                    Self::struct_decls_in(e, out);
+                }
+            }
+            TypedStmtKind::While { body, .. }
+            | TypedStmtKind::For { body, .. }
+            | TypedStmtKind::ForEach { body, .. } => Self::struct_decls_in(body, out),
+            TypedStmtKind::Function(func) => {
+                func.body.iter().for_each(|s| Self::struct_decls_in(s, out))
+            }
+            _ => {}
+        }
+    }
+
     pub(super) fn is_const_bool(expr: &TypedExpr) -> Option<bool> {
         match &expr.kind {
             TypedExprKind::Bool(b) => Some(*b),
@@ -42,22 +69,25 @@ impl DeadCodeEliminator {
             }
         }
 
-        // cut off everything after a terminator
+        // cut off everything after a terminator, except the struct declarations in there
         let mut found_terminator = false;
-        stmts.retain(|stmt| {
+        let mut kept = Vec::with_capacity(stmts.len());
+        for stmt in stmts.drain(..) {
             if found_terminator {
-                // a struct declaration is not code: other declarations may name it, wherever it stands
                 if matches!(stmt.kind, TypedStmtKind::StructDecl { .. }) {
-                    return true;
+                    kept.push(stmt);
+                } else {
+                    Self::struct_decls_in(&stmt, &mut kept);
+                    self.stats.dead_code_eliminated += 1;
                 }
-                self.stats.dead_code_eliminated += 1;
-                return false;
+                continue;
             }
-            if Self::is_terminator(stmt) {
+            if Self::is_terminator(&stmt) {
                 found_terminator = true;
             }
-            true
-        });
+            kept.push(stmt);
+        }
+        *stmts = kept;
 
         // also remove empty blocks
         let mut remaining = stmts.len();
@@ -108,6 +138,15 @@ impl DeadCodeEliminator {
             } => {
                 // if condition is constant, replace whole if with the taken branch
                 if let Some(cond_value) = Self::is_const_bool(condition) {
+                    // struct declarations of the branch that is dropped are kept
+                    let mut dropped_decls = Vec::new();
+                    if cond_value {
+                        if let Some(else_b) = else_branch.as_ref() {
+                            Self::struct_decls_in(else_b, &mut dropped_decls);
+                        }
+                    } else {
+                        Self::struct_decls_in(then_branch, &mut dropped_decls);
+                    }
                     let branch = if cond_value {
                         self.eliminate_in_stmt(then_branch);
                         Some(then_branch)
@@ -141,6 +180,13 @@ impl DeadCodeEliminator {
                     } else {
                         stmt.kind = TypedStmtKind::Block(vec![]);
                     }
+                    if !dropped_decls.is_empty() {
+                        let taken = stmt.clone();
+                        if !matches!(&taken.kind, TypedStmtKind::Block(v) if v.is_empty()) {
+                            dropped_decls.push(taken);
+                        }
+                        stmt.kind = TypedStmtKind::Block(dropped_decls);
+                    }
                     self.stats.branches_eliminated += 1;
                     return;
                 }
@@ -152,7 +198,9 @@ impl DeadCodeEliminator {
             TypedStmtKind::While { condition, body } => {
                 // while false { } -> nothing
                 if Self::is_const_bool(condition) == Some(false) {
-                    stmt.kind = TypedStmtKind::Block(vec![]);
+                    let mut decls = Vec::new();
+                    Self::struct_decls_in(body, &mut decls);
+                    stmt.kind = TypedStmtKind::Block(decls);
                     self.stats.branches_eliminated += 1;
                     return;
                 }
